@@ -8,6 +8,7 @@ valid message, whole and cut; (c) 2-octet windows in the interior of seed messag
 valid message.
 """
 from checks import common
+from oracles.ref_ber import frame as ref_frame
 
 PROPERTY = "C06"
 LEVEL = "model_checking"
@@ -117,8 +118,15 @@ def body(ctx, shape):
         delivered = delivered + ch
         try:
             msgs = sess.receive(ch)
-        except Exception as e:  # noqa: BLE001  (the error contract is C05's)
+        except Exception as e:  # noqa: BLE001
             ctx.observe(f"error#{i}", type(e).__name__)
+            if type(e).__name__ != "ProtocolError":
+                # neither returned nor a protocol error: the unit is unaccounted for (and C05 is violated too)
+                complete, _, st = ref_frame(ctx, delivered)
+                if st == "ok" and ctx.is_true(complete > returned):
+                    from sx.harness import exc_site
+
+                    ctx.fail("complete-pdu-neither-returned-nor-protocol-error", f"{type(e).__name__}@{exc_site(e)}")
             return
         returned += len(msgs)
         ctx.observe(f"returned#{i}", returned)
